@@ -203,6 +203,10 @@ def _gen_once(rng, kind, tier):
                 # fitted levels need the inner plateau on the grid (otherwise the inside level is not
                 # determined by the image): keep the hole at least four widths inside the interface
                 r_in = float(np.round(rng.uniform(0.1, 1.0) * max(0.0, R - 4 * w) / u, 3)) * u
+            # the droplet has to be visible at every threshold rule: the innermost cell centre lies at least one
+            # interface width inside the interface (value >= 0.88 of the contrast; a thorough run met a hole of 0.66 R
+            # under the numeric threshold 0.7 - no cell above it, nothing to locate)
+            r_in = min(r_in, float(np.floor(max(0.0, R - w - 0.5 * hr) / u * 1000) / 1000) * u)
             if r_in >= 0.5 * hr:
                 spec["radius"] = [r_in, r_in + hr * n]
         dim = 2 if fam == "polar" else 3
